@@ -88,19 +88,57 @@ impl TextDocument {
     fn validate_range(&self, range: Range) -> Result<(), DocumentError> {
         let start = self.position_to_index(range.start);
         let end = self.position_to_index(range.end);
-        if start > end || end > self.content.len() {
+        if start > end
+            || end > self.content.len()
+            || !self.content.is_char_boundary(start)
+            || !self.content.is_char_boundary(end)
+        {
             return Err(DocumentError::InvalidRange { range });
         }
         Ok(())
     }
 
+    /// Converts an LSP position into a byte index into the content.
+    ///
+    /// `position.character` is counted in UTF-16 code units, the default position encoding of
+    /// the protocol. As per the LSP specification, a character offset greater than the line
+    /// length defaults back to the line length. A character offset pointing inside of a
+    /// surrogate pair yields an index that is not a char boundary.
     fn position_to_index(&self, position: Position) -> usize {
-        let line_offset = self
+        let line_start = self
             .line_offsets
             .get(position.line as usize)
             .copied()
             .unwrap_or(self.content.len());
-        line_offset + position.character as usize
+        let line_end = self
+            .line_offsets
+            .get(position.line as usize + 1)
+            .copied()
+            .unwrap_or(self.content.len());
+        // The line ending is not part of the line.
+        let line = &self.content[line_start..line_end];
+        let line = line
+            .strip_suffix("\r\n")
+            .or_else(|| line.strip_suffix('\n'))
+            .unwrap_or(line);
+
+        let character = position.character as usize;
+        let mut utf16_offset = 0;
+        for (index, c) in line.char_indices() {
+            if utf16_offset == character {
+                return line_start + index;
+            }
+            if utf16_offset > character {
+                // Inside of the surrogate pair of the previous character.
+                return line_start + index - 1;
+            }
+            utf16_offset += c.len_utf16();
+        }
+        if utf16_offset > character {
+            // Inside of the surrogate pair of the last character of the line.
+            return line_start + line.len() - 1;
+        }
+        line_start + line.len()
     }
 
     fn calculate_line_offsets(text: &str) -> Vec<usize> {
@@ -373,5 +411,40 @@ mod tests {
             line_offsets,
         };
         assert_eq!(document.position_to_index(Position::new(1, 2)), 8);
+    }
+
+    #[test]
+    fn apply_change_counts_utf16_code_units() {
+        let content = "é😀x\r\nab".to_string();
+        let line_offsets = TextDocument::calculate_line_offsets(&content);
+        let mut document = TextDocument {
+            version: 1,
+            uri: "test.sw".into(),
+            content,
+            line_offsets,
+        };
+        assert_eq!(document.position_to_index(Position::new(0, 1)), 2);
+        assert_eq!(document.position_to_index(Position::new(0, 3)), 6);
+        // Past the end of the line defaults back to the end of the line.
+        assert_eq!(document.position_to_index(Position::new(0, 10)), 7);
+        assert_eq!(document.position_to_index(Position::new(1, 10)), 11);
+
+        let change = TextDocumentContentChangeEvent {
+            range: Some(Range::new(Position::new(0, 3), Position::new(0, 4))),
+            range_length: None,
+            text: "y".into(),
+        };
+        document.apply_change(&change).unwrap();
+        assert_eq!(document.get_text(), "é😀y\r\nab");
+
+        // A position inside of the surrogate pair of '😀' is rejected.
+        let range = Range::new(Position::new(0, 2), Position::new(0, 3));
+        let change = TextDocumentContentChangeEvent {
+            range: Some(range),
+            range_length: None,
+            text: "z".into(),
+        };
+        assert!(document.apply_change(&change).is_err());
+        assert_eq!(document.get_text(), "é😀y\r\nab");
     }
 }
